@@ -11,6 +11,12 @@ MCAcctKeys3 == {K(0, 0), K(0, 1), K(15, 1)}
 MCSlotKeys == {K(0, 1), K(1, 1)}
 MCSlotVal == [s \in MCSlotKeys |-> IF s = K(0, 1) THEN 11 ELSE 12]
 
+(* slot hashes that share 62 nibbles: the storage tries get embedded (< 32 byte) nodes, so  *)
+(* the stored node set is smaller than the node set (configuration with Pad = 0)            *)
+P62 == [i \in 1..62 |-> 0]
+MCSlotKeysLong == {P62 \o K(0, 1), P62 \o K(0, 15), P62 \o K(1, 1)}
+MCSlotValLong == [s \in MCSlotKeysLong |-> IF s[64] = 1 THEN 11 ELSE 12]
+
 KeySeq(S) == SortedKeys(S)
 EntrySeq(S) == SetToSortSeq(S, LAMBDA e, f : EntryLess(e, f))
 PathSeq(S) == SetToSortSeq(S, LAMBDA a, b : SeqLess(a, b))
